@@ -195,9 +195,11 @@ PROPS["C06"] = dict(
     trusted_base=[A_TOOLS, A_SC, A_EBR, A_PARAM, "the one-level contract is proved at depth 1023 (chain) and at every depth (leaf); that the child-handling block does not depend on depth other than through `depth + 1` is what the two together establish for the monomorphic function"],
     assumptions=["epochs-elapsed is not measured (no execution): only the structural reason for the bound is proved - every attempt destructs up to 1024 levels in one pass and leaves at most one deferred attempt, so n nodes cost ceil(n/1024) grace periods of A-EBR", "chains/trees: one outgoing edge per node in the chain harness (tree shapes: thorough tier)"],
 )
+_L3M_FWD = ["epoch_h.rs", "internal_h.rs", "list_h.rs", "queue_h.rs", "deferred_h.rs"]
 PROPS["C07"] = dict(
+    harness_timeout=dict(quick=1500, thorough=5400),
     title="destroying long or deep structures never overflows the stack", level="proof",
-    modules=["utils_state_h.rs", "utils_dispose_h.rs", "internal_cut_h.rs", "epoch_h.rs", "internal_h.rs", "list_h.rs", "queue_h.rs"], contract_groups=["state", "modular", "epoch", "expired"],
+    modules=["utils_state_h.rs", "utils_dispose_h.rs", "internal_cut_h.rs"] + _L3M_FWD, contract_groups=["state", "modular", "epoch", "expired"],
     kani=dict(quick=_h("utils_dispose_h.rs", _DISP_CORE + ["c06_chain_induction_step"]) + _h("internal_h.rs", ["c15_defer", "c15_flush", "c16_unpin"])),
     kani_flags=_FAST, loops=_STUTTER,
     functions_under_contract=["dispose_general_node", "dispose", "Local::{defer,flush,unpin} (deferred functions run only from the outermost unpin, never on top of a deferring frame)"],
@@ -255,11 +257,14 @@ PROPS["C19"] = dict(
     assumptions=["pointers range over {null, A, B} x all tags x all timestamps with symbolic payloads"],
 )
 # C11 and C12 gain the wrappers / the decision site
+PROPS["C11"]["kani"]["quick"] += ["pointers_h.rs::c11_pointer_fmt_ignores_tag_and_timestamp"]
+PROPS["C11"]["kani"]["thorough"] = ["strong_h.rs::c11_rc_pointer_fmt"]
 PROPS["C11"]["modules"] = ["pointers_h.rs", "utils_rg_h.rs", "internal_cut_h.rs", "strong_h.rs", "weak_h.rs"]
 PROPS["C11"]["kani"]["quick"] += _h("strong_h.rs", ["c11_rc_snapshot_tags", "l2_rc_new_deref"]) + _h("weak_h.rs", ["c11_weak_tags"])
 PROPS["C11"]["functions_under_contract"] += ["Rc/Snapshot/Weak/WeakSnapshot::{tag,with_tag,is_null,ptr_eq}", "Rc/Snapshot::as_ref"]
 PROPS["C11"]["expected_obligations"] += ["C11.rc.with_tag_truncates_keeps_address_and_timestamp", "C11.weak.with_tag_truncates_keeps_address_and_timestamp", "C11.rc_as_ref.ignores_tag_and_timestamp"]
-PROPS["C11"]["assumptions"] += ["pointer formatting ({:p}): the impls are the one-liner Pointer::fmt(&self.as_raw(), f), whose argument is covered by the as_raw contract; core::fmt itself is not taken through CBMC"]
+PROPS["C11"]["assumptions"] += ["pointer formatting ({:p}) is proved for Tagged, Rc and Snapshot over addresses < 2^16 (digit loop bound), all tags and timestamps; Weak/WeakSnapshot/AtomicRc/AtomicWeak impls are the same one-liner over Tagged"]
+PROPS["C11"]["expected_obligations"] += ["C11.fmt.pointer_formatting_ignores_tag_and_timestamp"]
 PROPS["C12"]["modules"] = ["utils_state_h.rs", "utils_dispose_h.rs", "internal_cut_h.rs"]
 PROPS["C12"]["kani"]["quick"] += _h("utils_dispose_h.rs", ["dispose_chain_level", "dispose_leaf_any_depth"])
 PROPS["C12"]["fast_harnesses"] = _h("utils_dispose_h.rs", ["dispose_chain_level", "dispose_leaf_any_depth"])
@@ -270,21 +275,22 @@ _EPOCH = ["c14_epoch_starting", "c14_epoch_wrapping_sub", "c14_epoch_is_pinned",
 PROPS["EP"] = dict(title="(dev) epoch", level="proof", modules=["epoch_h.rs"], contract_groups=["epoch"],
                    kani=dict(quick=_h("epoch_h.rs", _EPOCH + ["c13_expiry_arith"])), trusted_base=[A_TOOLS])
 _L3A = ["c13_is_expired", "c13_is_expired_x", "c16_pin", "c16_unpin", "c16_repin", "c16_reactivate_after", "c14_repin_without_collect", "c15_handles", "c13_try_advance", "c14_try_advance_monotone"]
-PROPS["L3"] = dict(title="(dev) internal.rs L3 contracts", level="proof", modules=["epoch_h.rs", "internal_h.rs", "list_h.rs", "queue_h.rs"], contract_groups=["epoch", "expired"],
+PROPS["L3"] = dict(title="(dev) internal.rs L3 contracts", level="proof", modules=["epoch_h.rs", "internal_h.rs", "list_h.rs", "queue_h.rs", "deferred_h.rs"], contract_groups=["epoch", "expired"],
                    kani=dict(quick=_h("internal_h.rs", _L3A)), trusted_base=[A_TOOLS], kani_flags=_FAST, harness_timeout=dict(quick=600, thorough=3600))
 _DEFD = ["c15_deferred_s0_a1", "c15_deferred_s1_a1", "c15_deferred_s8_a8", "c15_deferred_s24_a1", "c15_deferred_s24_a8", "c15_deferred_s25_a1", "c15_deferred_s28_a1",
-         "c15_deferred_s31_a1", "c15_deferred_s32_a8", "c15_deferred_s16_a16", "c15_deferred_s32_a32", "c15_deferred_s64_a8", "c15_deferred_owning_closure"]
+         "c15_deferred_s31_a1", "c15_deferred_s32_a8", "c15_deferred_s16_a16", "c15_deferred_s32_a32", "c15_deferred_s64_a8", "c15_deferred_owning_closure", "c15_tagged_call_contract"]
 PROPS["DEFD"] = dict(title="(dev) deferred", level="proof", modules=["deferred_h.rs"], contract_groups=[],
                    kani=dict(quick=_h("deferred_h.rs", _DEFD)), trusted_base=[A_TOOLS])
 _L3B = ["c15_bag", "c13_push_bag", "c13_collect", "c15_defer", "c15_flush", "c15_finalize"]
-PROPS["L3B"] = dict(title="(dev) internal.rs bags/defer/collect", level="proof", modules=["epoch_h.rs", "internal_h.rs", "list_h.rs", "queue_h.rs"], contract_groups=["epoch", "expired"],
+PROPS["L3B"] = dict(title="(dev) internal.rs bags/defer/collect", level="proof", modules=["epoch_h.rs", "internal_h.rs", "list_h.rs", "queue_h.rs", "deferred_h.rs"], contract_groups=["epoch", "expired"],
                    kani=dict(quick=_h("internal_h.rs", ["c13_collect", "c15_finalize"])), trusted_base=[A_TOOLS], kani_flags=_FAST)
 PROPS["Q"] = dict(title="(dev) queue", level="other", modules=["queue_h.rs"], contract_groups=[], kani=dict(quick=_h("queue_h.rs", ["c17_queue_sequential"])), trusted_base=[A_TOOLS], kani_flags=_FAST)
 PROPS["LST"] = dict(title="(dev) list", level="other", modules=["list_h.rs"], contract_groups=[], kani=dict(quick=_h("list_h.rs", ["c18_iter_sequential", "c18_insert_delete"])), trusted_base=[A_TOOLS], kani_flags=_FAST)
-_L3M = ["epoch_h.rs", "internal_h.rs", "list_h.rs", "queue_h.rs"]
+_L3M = ["epoch_h.rs", "internal_h.rs", "list_h.rs", "queue_h.rs", "deferred_h.rs"]
 _L3G = ["epoch", "expired"]
 _INT = "internal_h.rs"
 PROPS["C13"] = dict(
+    harness_timeout=dict(quick=1500, thorough=5400),
     title="deferred work never runs while a critical section active at deferral is active", level="other",
     modules=_L3M, contract_groups=_L3G,
     kani=dict(quick=_h("epoch_h.rs", ["c13_expiry_arith", "c14_epoch_wrapping_sub", "c14_epoch_twin"]) + _h(_INT, ["c13_is_expired", "c13_is_expired_x", "c16_pin", "c16_unpin", "c13_try_advance",
@@ -303,6 +309,7 @@ PROPS["C13"] = dict(
                 "pin returns only after validating its published epoch against a later load of the clock; unpin clears the pinned bit only for the outermost guard. A change weakening any of them fails a named obligation.",
 )
 PROPS["C14"] = dict(
+    harness_timeout=dict(quick=1500, thorough=5400),
     title="epoch clock is monotone; a pinned participant sees at most one advance", level="proof",
     modules=_L3M, contract_groups=_L3G,
     kani=dict(quick=_h("epoch_h.rs", _EPOCH) + _h(_INT, ["c16_pin", "c14_repin_without_collect", "c13_try_advance", "c14_try_advance_monotone", "c16_repin", "c16_unpin", "c15_flush", "c13_push_bag"])),
@@ -317,8 +324,9 @@ PROPS["C14"] = dict(
     assumptions=[A_SC, A_RG, "multi-advancer schedules are covered by the R/G step (c14_try_advance_monotone), not enumerated"],
 )
 PROPS["C15"] = dict(
+    harness_timeout=dict(quick=1500, thorough=5400),
     title="every deferred function runs exactly once, even across thread exit", level="proof",
-    modules=_L3M + ["deferred_h.rs"], contract_groups=_L3G,
+    modules=_L3M, contract_groups=_L3G,
     kani=dict(quick=_h("deferred_h.rs", _DEFD) + _h(_INT, ["c15_bag", "c15_defer", "c15_flush", "c15_finalize", "c13_push_bag", "c13_collect", "c16_unpin", "c15_handles", "c15_guard_defer"])),
     kani_flags=_FAST,
     loops="Bag::drop drains <= 3 stored functions; Local::defer's retry loop; collect's trial loop with <= 2 bags: all unwound with unwinding assertions on (complete for the bounded sizes)",
@@ -332,6 +340,7 @@ PROPS["C15"] = dict(
     assumptions=["'eventually' is not decided (a change that only stops progress - e.g. never scheduling a collection when the local bag is empty - is not a contract violation of any single function and is NOT detected)", "Queue::drop running what is left at collector teardown is not covered"],
 )
 PROPS["C16"] = dict(
+    harness_timeout=dict(quick=1500, thorough=5400),
     title="nested guards and reactivation keep the thread pinned exactly as documented", level="proof",
     modules=_L3M, contract_groups=_L3G,
     kani=dict(quick=_h(_INT, ["c16_pin", "c16_unpin", "c16_repin", "c16_reactivate_after", "c15_handles", "c15_finalize", "c16_guard_drop", "c14_repin_without_collect", "c15_flush"])),
@@ -360,6 +369,7 @@ PROPS["C17"] = dict(
                 "None only if empty or the predicate failed, a popped node is retired exactly once. The concurrent (schedule-quantified) half of the property is not within reach of per-function contracts on this code and is not claimed.",
 )
 PROPS["C18"] = dict(
+    harness_timeout=dict(quick=1500, thorough=5400),
     title="epoch advancement never overlooks a registered participant: sequential traversal contract", level="other",
     modules=_L3M, contract_groups=_L3G,
     kani=dict(quick=_h("list_h.rs", ["c18_iter_sequential", "c18_insert_delete"]) + _h(_INT, ["c13_try_advance", "c15_finalize", "c18_try_advance_stalled"])), kani_flags=_FAST,
